@@ -97,8 +97,8 @@ def graph_entry_points(run):
                 bad = [k for k, v in dct.items() if not (k < len(ns) and ns[k] == v)]
                 once = [u for u in (UA, A, B) if ns.count(u) != 1]
                 # every node is still found under its own URI
-                uris = {ns[n] for n in G.nodes["ns"].unique()} if "ns" in G.nodes.columns else set()
-                if bad or once or not {UA, A, B} <= uris:
+                uris = {ns[n] if 0 <= int(n) < len(ns) else "<index %d outside graph.namespaces>" % int(n) for n in G.nodes["ns"].unique()} if "ns" in G.nodes.columns else set()
+                if bad or once or not {UA, A, B} <= uris or any(u.startswith("<index") for u in uris):
                     run.violation(dict(case, entry=entry), {"what": "UAGraph.%s(namespace_dict): dict key(s) %r are not at that index of graph.namespaces, or a URI is missing/duplicated (%r)" % (entry, bad, once),
                                                             "impl": ns, "call": "UAGraph.%s(files, namespace_dict)" % entry})
                     return
